@@ -119,18 +119,25 @@ int snoopy_util_parser_csvToArgList (char *argListRaw, char ***argListParsed)
 int snoopy_util_parser_strByteLength (char const * const numberAsText, const int valMin, const int valMax, const int valDefault)
 {
     char const *numberAsTextPtr       = numberAsText;
+    char const *digitsStart;
     int  numbersBufLength             = 20; // 20 characters are needed to store max long long int in decimal representation + \0.
     char numbersBuf[numbersBufLength];
     long long numberInt;
     long long factor = 1;
     long long result;
 
-    // Extract numbers
-    while ((*numberAsTextPtr != '\0') && isdigit(*numberAsTextPtr) && (numberAsTextPtr-numberAsText < numbersBufLength-2)) {
-        numbersBuf[numberAsTextPtr - numberAsText] = *numberAsTextPtr;
+    // Leading zeros do not count towards the digits that fit into the buffer (but keep the last one, if that is all there is)
+    while ((*numberAsTextPtr == '0') && isdigit((unsigned char) numberAsTextPtr[1])) {
         numberAsTextPtr++;
     }
-    numbersBuf[numberAsTextPtr - numberAsText] = '\0';
+    digitsStart = numberAsTextPtr;
+
+    // Extract numbers
+    while ((*numberAsTextPtr != '\0') && isdigit((unsigned char) *numberAsTextPtr) && (numberAsTextPtr-digitsStart < numbersBufLength-2)) {
+        numbersBuf[numberAsTextPtr - digitsStart] = *numberAsTextPtr;
+        numberAsTextPtr++;
+    }
+    numbersBuf[numberAsTextPtr - digitsStart] = '\0';
 
     // Convert to int
     numberInt = strtoll(numbersBuf, NULL, 10);   // At most 18 digits, always fits
